@@ -204,3 +204,19 @@ Section GenericScores.
   Definition gget_motif_scores_with (stopf : Z -> option Z) (cols : list (list T)) (rows : list (list Z)) : list (list T) :=
     rewrap_trim (stopf (len cols)) 0 (map len rows) (gmotif_flat cols (concat rows)).
 End GenericScores.
+
+(* ---- weighted counts: count_encoded(kmers, weights=w) = np.bincount(values, weights, minlength) *)
+Definition wbincount (m : Z) (vals weights : list Z) : list Z :=
+  map (fun v => sumZ (map snd (filter (fun p => fst p =? v) (combine vals weights)))) (arange m).
+Definition count_weighted_with stopf (n k : Z) rows (weights : list Z) : list Z :=
+  wbincount (n ^ k) (concat (get_kmers_with stopf n k rows)) weights.
+Definition count_weighted := count_weighted_with stop_of.
+
+(* ---- very long rows given as (pattern, repetitions): row_i = pattern_i repeated reps_i times.  Counting 1-mers of
+        such rows in closed form (so that collections of more than 10^6 letters can be checked without expanding them);
+        Proofs/C13_big.v proves the closed form equal to the counts of the expanded rows. *)
+Definition tile (r : nat) (p : list Z) : list Z := concat (repeat p r).
+Fixpoint add_lists (a b : list Z) : list Z :=
+  match a, b with x :: a', y :: b' => (x + y) :: add_lists a' b' | _, _ => [] end.
+Definition big_counts (m : Z) (pats : list (list Z)) (reps : list Z) : list Z :=
+  fold_right (fun pr acc => add_lists (map (Z.mul (snd pr)) (bincount m (fst pr))) acc) (bincount m []) (combine pats reps).
